@@ -31,12 +31,48 @@ def isSimpleCmd (c : Str) : Bool :=
   | some .lt => true
   | _ => false
 
+/-- the variable named by a word of the exact form `${name}` (name free of expansion syntax,
+    `}` and key-ending characters) -/
+def handleVar? (w : Str) : Option Str :=
+  match w with
+  | '$' :: '{' :: rest =>
+    match rest.reverse with
+    | '}' :: nameRev =>
+      let name := nameRev.reverse
+      if !name.isEmpty && name.all (fun c => c != '$' && c != '%' && c != '\\' && c != '}' && c != '{' &&
+          c != ' ' && c != '=' && c != '\t' && c != '\r' && c != '\n') then some name else none
+    | _ => none
+  | _ => none
+
+mutual
+  /-- does the statement (possibly) assign variable `v`: as an output variable or as a loop variable -/
+  def Stmt.assigns (v : Str) : Stmt → Bool
+    | .line l => l.out == some v
+    | .ifChain _ _ body elifs _ elseBody _ => body.assigns v || elifs.assigns v || elseBody.assigns v
+    | .whileLoop _ _ body _ => body.assigns v
+    | .forIn _ x _ body _ => x == v || body.assigns v
+    | .fnDef _ _ _ body _ => body.assigns v
+    | .ret _ _ => false
+  def Block.assigns (v : Str) : Block → Bool
+    | .nil => false
+    | .cons s rest => s.assigns v || rest.assigns v
+  def Elifs.assigns (v : Str) : Elifs → Bool
+    | .nil => false
+    | .cons _ _ body rest => body.assigns v || rest.assigns v
+end
+
 mutual
   def Stmt.simple : Stmt → Bool
     | .line l => isSimpleCmd l.cmd && isLiteral l.cmd
     | .ifChain _ cond body elifs _ elseBody _ => condSimple cond && body.simple && elifs.simple && elseBody.simple
     | .whileLoop _ cond body _ => condSimple cond && body.simple
-    | .forIn _ v handle body _ => isLiteral v && !v.isEmpty && body.simple && !handle.isEmpty
+    -- a for-in loop iterates over the collection held by a variable `${h}` that the body
+    -- does not reassign (the real interpreter re-reads the handle word on every iteration)
+    | .forIn _ x handle body _ =>
+      isLiteral x && !x.isEmpty && body.simple &&
+        (match handleVar? handle with
+         | some h => x != h && !body.assigns h
+         | none => false)
     | .fnDef _ _ _ _ _ => false
     | .ret _ _ => false
   def Block.simple : Block → Bool
